@@ -158,6 +158,17 @@ func (it *Interp) reflectTypeMethod(tok *typeToken, name string, args []Value) V
 			return it.reflectTypeValue(u.Elem())
 		}
 		it.goPanicValue(mkStrIface(it, "reflect: Elem of invalid type "+typeStr(t)))
+	case "ChanDir":
+		if u, ok := t.Underlying().(*types.Chan); ok {
+			switch u.Dir() {
+			case types.RecvOnly:
+				return Value{Bits: 1}
+			case types.SendOnly:
+				return Value{Bits: 2}
+			}
+			return Value{Bits: 3}
+		}
+		it.goPanicValue(mkStrIface(it, "reflect: ChanDir of non-chan type "+typeStr(t)))
 	case "Key":
 		if u, ok := t.Underlying().(*types.Map); ok {
 			return it.reflectTypeValue(u.Key())
@@ -266,7 +277,7 @@ func reflectIntrinsic(eng *Engine, fn *ssa.Function, name string) intrinsic {
 				sl, _ := v.Ref.(Slice)
 				vars := make([]*types.Var, sl.n)
 				for i := 0; i < sl.n; i++ {
-					vars[i] = types.NewParam(0, nil, "", it.tokenArg(sl.c[i].load()).t)
+					vars[i] = types.NewParam(0, nil, "", it.tokenArg(it.loadCell(sl.c[i])).t)
 				}
 				return types.NewTuple(vars...)
 			}
@@ -529,6 +540,9 @@ func reflectValueIntrinsics() map[string]intrinsic {
 				if i < 0 || i >= len(a.v) {
 					it.goPanicValue(mkStrIface(it, "reflect: array index out of range"))
 				}
+				if rv.addr != nil && rv.addr.agg && len(rv.addr.sub) == len(a.v) {
+					return Value{Ref: &ReflVal{t: u.Elem(), addr: rv.addr.sub[i]}}
+				}
 				return Value{Ref: &ReflVal{t: u.Elem(), v: a.v[i]}}
 			case *types.Basic:
 				if s, ok := rv.cur().Ref.(*Str); ok {
@@ -653,6 +667,9 @@ func reflectValueIntrinsics() map[string]intrinsic {
 				a := rv.cur().Ref.(*Agg)
 				if i < 0 || i >= len(a.v) {
 					it.goPanicValue(mkStrIface(it, "reflect: Field index out of range"))
+				}
+				if rv.addr != nil && rv.addr.agg && len(rv.addr.sub) == len(a.v) {
+					return Value{Ref: &ReflVal{t: st.Field(i).Type(), addr: rv.addr.sub[i]}}
 				}
 				return Value{Ref: &ReflVal{t: st.Field(i).Type(), v: a.v[i]}}
 			}
